@@ -89,3 +89,48 @@ def rule_bool_total(ctx: Ctx, rep: Report, rule: str, quals: list[str]) -> None:
                 rets = [r for r in ast.walk(h) if isinstance(r, ast.Return)]
                 ok = bool(rets) and all(isinstance(r.value, ast.Constant) and r.value.value is False for r in rets)
                 rep.ob(rule, f"{q}:handler_false", ok, fi.where(h), "the handler returns False")
+
+
+def rule_config_forwarded(ctx: Ctx, rep: Report, rule: str, cls_qual: str, fields: dict[str, str], floor: int) -> None:
+    """A signer object holds the curve and the hash function it was built
+    with (`self._ec`, `self._hf`); every call it makes to a btclib function
+    that has a parameter of that meaning (`ec`, `hf`) hands its own over --
+    an omitted argument falls back to the callee's default (secp256k1 /
+    sha256), and the object then signs under another scheme than the one it
+    was asked for."""
+    ci = ctx.cls(cls_qual)
+    n = 0
+    for mname, fi in sorted(ci.methods.items()):
+        for c in own_nodes(fi.node):
+            if not isinstance(c, ast.Call):
+                continue
+            q = ctx.resolve_call(fi, c)
+            callee = ctx.prog.functions.get(q or "")
+            if callee is None or callee.cls is ci:
+                continue
+            ps = callee.params()
+            if ps and ps[0] in ("self", "cls"):
+                ps = ps[1:]
+            a = callee.node.args
+            kwonly = {x.arg for x in a.kwonlyargs}
+            for fld, pname in fields.items():
+                if pname not in ps:
+                    continue
+                n += 1
+                given = None
+                for k in c.keywords:
+                    if k.arg == pname:
+                        given = k.value
+                if given is None and pname not in kwonly:
+                    pos = ps.index(pname)
+                    if pos < len(c.args) and not any(isinstance(x, ast.Starred) for x in c.args[: pos + 1]):
+                        given = c.args[pos]
+                key = f"{ci.name}.{mname}->{callee.qualname.rsplit('.', 1)[1]}({pname})"
+                if given is None:
+                    rep.ob(rule, key, False, fi.where(c), f"`{pname}` is not handed over: the callee's default stands in for the signer's own {fld}")
+                else:
+                    # the constructor's own parameter, which is what it stores in the field
+                    stored = {norm(x.value) for x in own_nodes(fi.node) if isinstance(x, ast.Assign) and any(norm(t) == f"self.{fld}" for t in x.targets)}
+                    ok = norm(given) == f"self.{fld}" or f"self.{fld}" in norm(given) or norm(given) in stored
+                    rep.ob(rule, key, ok, fi.where(c), f"{pname}={norm(given)}" + ("" if ok else f": not the signer's own {fld}"))
+    rep.floor(rule, floor)
